@@ -1209,6 +1209,23 @@ class Exec:
         except L.IndexOOB:
             self.ctx.obligation("no-raise:IndexError", False)
             return []
+        except NeedConcreteInt as e:
+            if isinstance(fn, (PyFunc, NestedFunc, ClassRef)):
+                raise
+            # a library model needs a concrete value for a symbolic integer argument: fork over its values
+            out = []
+            st.tmp.append((fn, list(args), dict(kwargs)))
+            vals = [v for v in range(-4, 33) if self.ctx.feasible_strict(st.pc + [e.term == v])]
+            self.ctx.cur_state = st
+            self.ctx.obligation("symbolic-index-within-search-window", z3.Or(*[e.term == v for v in vals]) if vals else False)
+            for i, v in enumerate(vals):
+                s2 = st if i == len(vals) - 1 else st.clone()
+                f2, a2, k2 = s2.tmp.pop()
+                s2.pc.append(e.term == v)
+                a2 = [subst_value(x, e.term, v) for x in a2]
+                k2 = {kk: subst_value(x, e.term, v) for kk, x in k2.items()}
+                out.extend(self.call(f2, a2, k2, s2, node))
+            return out
         raise Unsupported("call of %r at %s" % (fn, self.where(node, st) if node else "?"))
 
     def bind_params(self, fnode, args, kwargs, st, self_val=None, defmodule=None):
@@ -1973,6 +1990,22 @@ def merge_states(ex, c, a, b, base):
     st.tmp = [_merge_val(ex, c, x, y, memo) for x, y in zip(a.tmp, b.tmp)]
     st.log = list(a.log) + [e for e in b.log[len(a.log):]]
     return st
+
+
+def subst_value(x, term, val):
+    """Replace a symbolic integer by a constant inside a value (arrays are rebuilt, not mutated)."""
+    if isz(x):
+        r = z3.substitute(x, (term, z3.IntVal(val)))
+        c = V.conc(r)
+        return c if c is not None else r
+    if isinstance(x, SArr):
+        fl = [subst_value(e, term, val) for e in x.flat()]
+        return SArr(L.mk(fl, x.shape, x.kind).a, x.kind, x.origin)
+    if isinstance(x, list):
+        return [subst_value(e, term, val) for e in x]
+    if isinstance(x, tuple):
+        return tuple(subst_value(e, term, val) for e in x)
+    return x
 
 
 def subst_index(idx, term, val):
